@@ -206,6 +206,69 @@ def _decode_members(data: bytes, new, error, step):
     return "incomplete", bytes(out), members
 
 
+def _decode_members_fine(data: bytes, new, error, kind: str):
+    """whole input available, output taken one byte at a time: the decoder stops at a full output buffer before it
+    looks at the next symbol, so everything decodable ahead of the damage comes out before the error is raised"""
+    out = bytearray()
+    d = new()
+    members = 0
+    rest = data
+    while rest:
+        if d.eof:
+            d = new()
+        try:
+            if kind == "zlib":
+                buf = rest
+                while True:
+                    o = d.decompress(buf, 1)
+                    out += o
+                    buf = d.unconsumed_tail
+                    if d.eof or (not o and not buf):
+                        break
+            else:
+                out += d.decompress(rest, 1)
+                while not d.eof and not d.needs_input:
+                    out += d.decompress(b"", 1)
+        except error:
+            return "corrupt", bytes(out), members
+        if d.eof:
+            members += 1
+            rest = d.unused_data
+        else:
+            rest = b""
+    return ("ok" if d.eof else "incomplete"), bytes(out), members
+
+
+def ref_decode_fine(token: str, data: bytes):
+    """Maximal-prefix variant of ref_decode for gzip/deflate/zstd; brotli cannot be stepped below its 32 KiB output
+    block, for it the better of (unbounded output) and (output limit 1) per input byte is returned."""
+    if token in ("gzip", "deflate"):
+        wb = 31 if token == "gzip" else (15 if data[:1] and data[0] & 0xF == 8 else -15)
+        return _decode_members_fine(data, lambda: zlib.decompressobj(wb), zlib.error, "zlib")
+    if token == "zstd":
+        return _decode_members_fine(data, zstd.ZstdDecompressor, zstd.ZstdError, "zstd")
+    if token == "br":
+        a = ref_decode("br", data, 1)
+        d = brotli.Decompressor()
+        out = bytearray()
+        try:
+            for i in range(len(data)):
+                if d.is_finished():
+                    break
+                out += d.process(data[i : i + 1], 1)
+                while not d.is_finished() and not d.can_accept_more_data():
+                    out += d.process(b"", 1)
+            while not d.is_finished():
+                more = d.process(b"", 1)
+                if not more:
+                    break
+                out += more
+        except brotli.error:
+            pass
+        return (a[0], a[1] if len(a[1]) >= len(out) else bytes(out), a[2])
+    return ref_decode(token, data, 1)
+
+
 def ref_decode(token: str, data: bytes, step: int | None = None):
     """token: the Content-Encoding value (gzip/deflate/br/zstd/identity).
     Returns (status, decoded_prefix, members) with status in ok|incomplete|corrupt|empty."""
@@ -229,6 +292,13 @@ def ref_decode(token: str, data: bytes, step: int | None = None):
                 return "corrupt", bytes(out), 1  # bytes after the end of the single brotli stream
             try:
                 out += d.process(piece)
+                # the binding hands output back in blocks: drain until a call yields nothing (observed with
+                # brotli 1.2.0: a first call returned 32752 bytes although 68849 were decodable)
+                while not d.is_finished():
+                    more = d.process(b"")
+                    if not more:
+                        break
+                    out += more
             except brotli.error:
                 return "corrupt", bytes(out), 0
         return ("ok" if d.is_finished() else "incomplete"), bytes(out), int(d.is_finished())
